@@ -42,3 +42,80 @@ pub proof fn lemma_floor_frac_eq(x: int, n1: int, d1: int, n2: int, d2: int)
     assert(0 <= r2 < d2) by (nonlinear_arith) requires d1 * r2 == r1 * d2, 0 <= r1 < d1, d1 > 0, d2 > 0;
     vstd::arithmetic::div_mod::lemma_fundamental_div_mod_converse(c, d2, q, r2);
 }
+
+// ---- settlement of the swap requests of one pool (C15)
+pub open spec fn req_value(tx: Transaction, d: Denom) -> int { if tx.outputs@[0].denom == d { tx.outputs@[0].value.0 as int } else { 0 } }
+/// saturating total of the requests paying in denomination `d` (first n requests, in order)
+pub open spec fn side_total(swaps: Seq<Transaction>, d: Denom, n: int) -> int decreases n {
+    if n <= 0 { 0 } else { sat128(side_total(swaps, d, n - 1) + req_value(swaps[n - 1], d)) }
+}
+pub open spec fn imin2(a: int, b: int) -> int { if a <= b { a } else { b } }
+/// what a swap request's coin becomes: the other side's denomination, its pro-rata share (rounded down, capped at the maximum
+/// coin value) of what the pool paid out for that side; covenant hash and additional data unchanged; height = this block
+pub open spec fn swapped_coin(t: Transaction, k: PoolKey, lw: int, rw: int, tl: int, tr: int, height: BlockHeight, c: CoinDataHeight) -> bool {
+    let o = t.outputs@[0];
+    &&& c.height == height && c.coin_data.covhash == o.covhash && c.coin_data.additional_data == o.additional_data
+    &&& (o.denom == k.left ==> c.coin_data.denom == k.right && c.coin_data.value.0 as int == imin2(spec_multiply_frac(rw, o.value.0 as int, tl), MAX_COINVAL.0 as int))
+    &&& (o.denom != k.left ==> c.coin_data.denom == k.left && c.coin_data.value.0 as int == imin2(spec_multiply_frac(lw, o.value.0 as int, tr), MAX_COINVAL.0 as int))
+}
+pub open spec fn swaps_pre(swaps: Seq<Transaction>, k: PoolKey) -> bool {
+    &&& forall|i: int| 0 <= i < swaps.len() ==> 0 < (#[trigger] swaps[i]).outputs@.len() <= 255 && swaps[i].outputs@[0].value.0 > 0 && (swaps[i].outputs@[0].denom == k.left || swaps[i].outputs@[0].denom == k.right)
+    &&& forall|i: int, j: int| 0 <= i < j < swaps.len() ==> spec_txhash(#[trigger] swaps[i]) != spec_txhash(#[trigger] swaps[j])
+    &&& k.left != k.right
+}
+/// coins after settling the first n requests: each request's first output replaced as above, nothing else touched
+pub open spec fn swaps_settled(c0: IMap<CoinID, CoinDataHeight>, c: IMap<CoinID, CoinDataHeight>, swaps: Seq<Transaction>, n: int, k: PoolKey, lw: int, rw: int, tl: int, tr: int, height: BlockHeight) -> bool {
+    &&& forall|id: CoinID| #[trigger] c.contains_key(id) <==> (c0.contains_key(id) || exists|i: int| 0 <= i < n && id == cid(#[trigger] swaps[i], 0))
+    &&& forall|i: int| 0 <= i < n ==> swapped_coin(swaps[i], k, lw, rw, tl, tr, height, #[trigger] c[cid(swaps[i], 0)])
+    &&& forall|id: CoinID| c.contains_key(id) && !(exists|i: int| 0 <= i < n && id == cid(#[trigger] swaps[i], 0)) ==> #[trigger] c[id] == c0[id]
+}
+pub proof fn lemma_side_total_ge(swaps: Seq<Transaction>, d: Denom, n: int, i: int)
+    requires 0 <= i < n <= swaps.len()
+    ensures side_total(swaps, d, n) >= imin2(req_value(swaps[i], d), u128::MAX as int), side_total(swaps, d, n) >= 0
+    decreases n
+{
+    lemma_side_total_nonneg(swaps, d, n - 1);
+    if i < n - 1 { lemma_side_total_ge(swaps, d, n - 1, i); }
+}
+pub proof fn lemma_side_total_nonneg(swaps: Seq<Transaction>, d: Denom, n: int)
+    ensures 0 <= side_total(swaps, d, n) <= u128::MAX decreases n
+{ if n > 0 { lemma_side_total_nonneg(swaps, d, n - 1); } }
+pub proof fn lemma_swaps_settled_step(c0: IMap<CoinID, CoinDataHeight>, c: IMap<CoinID, CoinDataHeight>, swaps: Seq<Transaction>, n: int, k: PoolKey, lw: int, rw: int, tl: int, tr: int, height: BlockHeight, d: CoinDataHeight)
+    requires swaps_settled(c0, c, swaps, n, k, lw, rw, tl, tr, height), 0 <= n < swaps.len(), swapped_coin(swaps[n], k, lw, rw, tl, tr, height, d),
+             forall|i: int, j: int| 0 <= i < j < swaps.len() ==> spec_txhash(#[trigger] swaps[i]) != spec_txhash(#[trigger] swaps[j])
+    ensures swaps_settled(c0, c.insert(cid(swaps[n], 0), d), swaps, n + 1, k, lw, rw, tl, tr, height)
+{
+    let c2 = c.insert(cid(swaps[n], 0), d);
+    assert forall|id: CoinID| #[trigger] c2.contains_key(id) <==> (c0.contains_key(id) || exists|i: int| 0 <= i < n + 1 && id == cid(#[trigger] swaps[i], 0)) by {
+        if c2.contains_key(id) { if id == cid(swaps[n], 0) { assert(0 <= n < n + 1 && id == cid(swaps[n], 0)); } else { assert(c.contains_key(id));
+            if !c0.contains_key(id) { let i = choose|i: int| 0 <= i < n && id == cid(#[trigger] swaps[i], 0); assert(0 <= i < n + 1 && id == cid(swaps[i], 0)); } } }
+        if exists|i: int| 0 <= i < n + 1 && id == cid(#[trigger] swaps[i], 0) { let i = choose|i: int| 0 <= i < n + 1 && id == cid(#[trigger] swaps[i], 0);
+            if i < n { assert(c.contains_key(id)); } }
+    }
+    assert forall|i: int| 0 <= i < n + 1 implies swapped_coin(swaps[i], k, lw, rw, tl, tr, height, #[trigger] c2[cid(swaps[i], 0)]) by {
+        if i < n { assert(spec_txhash(swaps[i]) != spec_txhash(swaps[n])); assert(cid(swaps[i], 0) != cid(swaps[n], 0)); }
+    }
+    assert forall|id: CoinID| c2.contains_key(id) && !(exists|i: int| 0 <= i < n + 1 && id == cid(#[trigger] swaps[i], 0)) implies #[trigger] c2[id] == c0[id] by {
+        assert(id != cid(swaps[n], 0)) by { if id == cid(swaps[n], 0) { assert(0 <= n < n + 1 && id == cid(swaps[n], 0)); } }
+        assert(!(exists|i: int| 0 <= i < n && id == cid(#[trigger] swaps[i], 0))) by {
+            if exists|i: int| 0 <= i < n && id == cid(#[trigger] swaps[i], 0) { let i = choose|i: int| 0 <= i < n && id == cid(#[trigger] swaps[i], 0); assert(0 <= i < n + 1 && id == cid(swaps[i], 0)); } }
+    }
+}
+/// the saturating fold over the mapped request values is side_total
+pub proof fn lemma_fold_side(swaps: Seq<Transaction>, d: Denom, mapped: Seq<CoinValue>, accs: Seq<u128>, n: int)
+    requires mapped.len() == n, n == swaps.len(), accs.len() == n + 1, accs[0] == 0,
+             forall|i: int| 0 <= i < n ==> (#[trigger] mapped[i]).0 as int == req_value(swaps[i], d),
+             forall|i: int| 0 <= i < n ==> (#[trigger] accs[i + 1]) as int == sat128(accs[i] + mapped[i].0)
+    ensures accs[n] as int == side_total(swaps, d, n)
+{
+    lemma_fold_side_prefix(swaps, d, mapped, accs, n, n);
+}
+pub proof fn lemma_fold_side_prefix(swaps: Seq<Transaction>, d: Denom, mapped: Seq<CoinValue>, accs: Seq<u128>, n: int, k: int)
+    requires mapped.len() == n, n == swaps.len(), accs.len() == n + 1, accs[0] == 0, 0 <= k <= n,
+             forall|i: int| 0 <= i < n ==> (#[trigger] mapped[i]).0 as int == req_value(swaps[i], d),
+             forall|i: int| 0 <= i < n ==> (#[trigger] accs[i + 1]) as int == sat128(accs[i] + mapped[i].0)
+    ensures accs[k] as int == side_total(swaps, d, k)
+    decreases k
+{
+    if k > 0 { lemma_fold_side_prefix(swaps, d, mapped, accs, n, k - 1); assert(accs[(k - 1) + 1] as int == sat128(accs[k - 1] + mapped[k - 1].0)); }
+}
